@@ -204,6 +204,10 @@ def gen_cases(rng, tier):
             obs = None
             if r % 2 == 1 or rng.random() < 0.3:
                 obs = {"eq_keys": rng.sample(names, rng.randint(0, len(names))), "slice": False}
+            if r % 2 == 1:
+                # in every run, for every loss kind: a parameter batch TOGETHER with observed equation parameters
+                batched = batched or [names[0]]
+                obs["eq_keys"] = obs["eq_keys"] or [rng.choice(names)]
             het = {names[0]: "fn"} if rng.random() < 0.3 else None
             c = dict(kind=kind, d=rng.choice([1, 2]), m=1, keys=keys, batched=batched, B=2, obs=obs, het=het,
                      malformed=None,
